@@ -455,6 +455,7 @@ func (web *webAPI) handleInstallConfigure(w http.ResponseWriter, r *http.Request
 	err = startMods(r.Context(), web.baseLogger, web.tlsManager)
 	if err != nil {
 		globalContext.firstRun = true
+		globalContext.auth.removeUser(u.Name)
 		copyInstallSettings(config, curConfig)
 		aghhttp.Error(r, w, http.StatusInternalServerError, "%s", err)
 
@@ -464,6 +465,7 @@ func (web *webAPI) handleInstallConfigure(w http.ResponseWriter, r *http.Request
 	err = config.write(web.tlsManager)
 	if err != nil {
 		globalContext.firstRun = true
+		globalContext.auth.removeUser(u.Name)
 		copyInstallSettings(config, curConfig)
 		aghhttp.Error(r, w, http.StatusInternalServerError, "Couldn't write config: %s", err)
 
